@@ -15,10 +15,10 @@
 using namespace sim; using namespace sapp;
 
 enum { ST_RUNS, ST_SETS, ST_CYCLES, ST_LOADS, F_CRASH, F_LOST, F_TORN, F_FLIP, F_HEADER, F_APPNAME, F_GARBAGE, F_UNKNOWN_PORT, F_PERMUTED, F_DEP_LINE_DELETED,
-       P_UNTOUCHED, P_LINES3, P_NEG_VALUE, P_FLOAT_LINE, P_TOGGLE_LINE, P_STRING_SPECIAL, P_ARRAY_LINE, P_PRESET_NONZERO, P_SUBTREE_LINE, P_PTR_SUBTREE_LINE, P_PRUNED, P_OPTION_LINE, P_PERM_ALL, P_PERM_SAMPLED, P_DEP_ORDER_MATTERED, P_TORN_ACCEPTED, P_NAME_WITH_BLANK, P_NEAR_MISS_PORT, P_AUTOSAVE, P_CHAR_ZERO, ST_N };
+       P_UNTOUCHED, P_LINES3, P_NEG_VALUE, P_FLOAT_LINE, P_TOGGLE_LINE, P_STRING_SPECIAL, P_ARRAY_LINE, P_PRESET_NONZERO, P_SUBTREE_LINE, P_PTR_SUBTREE_LINE, P_PRUNED, P_OPTION_LINE, P_PERM_ALL, P_PERM_SAMPLED, P_DEP_ORDER_MATTERED, P_TORN_ACCEPTED, P_NAME_WITH_BLANK, P_NEAR_MISS_PORT, P_AUTOSAVE, P_CHAR_ZERO, P_JOINED, ST_N };
 static const char *STAT_NAMES[ST_N] = { "runs", "sets", "save_crash_restart_load_cycles", "evaluations", "fault.crash_restart", "fault.lost_write", "fault.torn_write", "fault.flipped_byte", "fault.foreign_header", "fault.other_application", "fault.unparsable_line", "fault.unknown_port_line", "fault.lines_permuted", "fault.depended_on_line_deleted",
        "probe.untouched_application_saved", "probe.savefile_with_3_or_more_lines", "probe.negative_value_saved", "probe.float_saved", "probe.toggle_saved", "probe.string_with_special_characters_saved", "probe.array_saved", "probe.non_default_preset_saved",
-       "probe.subtree_parameter_saved", "probe.pointer_subtree_parameter_saved", "probe.disabled_subtree_pruned", "probe.option_saved", "probe.all_permutations_enumerated", "probe.permutations_sampled", "probe.file_with_dependency_between_lines", "probe.torn_file_accepted_partially", "probe.application_name_with_a_blank", "probe.unknown_port_named_like_a_port_plus_suffix", "probe.autosave_without_restart", "probe.char_parameter_zero_saved" };
+       "probe.subtree_parameter_saved", "probe.pointer_subtree_parameter_saved", "probe.disabled_subtree_pruned", "probe.option_saved", "probe.all_permutations_enumerated", "probe.permutations_sampled", "probe.file_with_dependency_between_lines", "probe.torn_file_accepted_partially", "probe.application_name_with_a_blank", "probe.unknown_port_named_like_a_port_plus_suffix", "probe.autosave_without_restart", "probe.char_parameter_zero_saved", "probe.order_loaded_with_all_messages_on_one_line" };
 
 enum { OP_SET = 0, OP_CYCLE, OP_FILL };
 enum { FL_NONE = 0, FL_LOST, FL_TORN, FL_FLIP, FL_HEADER, FL_APP, FL_GARBAGE, FL_UNKNOWN, FL_N };
@@ -204,11 +204,14 @@ struct SaveWorld : World {
             // ---- C13: the order of the lines must not matter
             if (c13 && lines.size() >= 2) {
                 std::string head = header_of(text); if (head.back() != '\n') head += "\n";
-                auto load_order = [&](const std::vector<std::string> &ls, const std::vector<int> &ord, std::vector<Val> &out) { std::string f = head; for (size_t i = 0; i < ord.size(); i++) f += ls[ord[i]] + (i + 1 < ord.size() ? "\n" : ""); Inst t(d); int r = load(t, f); out = snapshot(t); return r; };
+                auto load_order = [&](const std::vector<std::string> &ls, const std::vector<int> &ord, std::vector<Val> &out, bool join = false) { std::string f = head; for (size_t i = 0; i < ord.size(); i++) f += ls[ord[i]] + (i + 1 < ord.size() ? (join ? " " : "\n") : ""); Inst t(d); int r = load(t, f); out = snapshot(t); return r; };
                 auto sweep = [&](const std::vector<std::string> &ls, const char *what) {
                     std::vector<int> ord(ls.size()); for (size_t i = 0; i < ord.size(); i++) ord[i] = (int)i;
-                    std::vector<Val> ref; int rref = load_order(ls, ord, ref); bool first = true; bool differs_possible = false; (void)differs_possible;
+                    std::vector<Val> ref; int rref = load_order(ls, ord, ref); bool first = true; int njoin = 0; bool differs_possible = false; (void)differs_possible;
                     auto one = [&](const std::vector<int> &o) { std::vector<Val> v; stat_add(F_PERMUTED); int r = load_order(ls, o, v);
+                        // every third order is also loaded with its messages on one line (the format separates messages by white space, not by line ends): same result
+                        if (rref >= 0 && r == rref && v == ref && ++njoin % 3 == 0) { bool cont = false; for (auto &l : ls) if (l.find('\n') != std::string::npos || l.find('\\') != std::string::npos) cont = true;
+                            if (!cont) { std::vector<Val> vj; stat_add(P_JOINED); int rj = load_order(ls, o, vj, true); if (rj != rref || !(vj == ref)) { r = rj; v = vj; } } }
                         if (rref < 0 && r < 0) return true;   // a file that is rejected is rejected in every order; what a rejected load leaves behind is not specified
                         if (r != rref || !(v == ref)) { std::string os; for (int x : o) os += ls[x] + " | "; size_t di = 0; while (di < v.size() && v[di] == ref[di]) di++;
                             snprintf(b, sizeof b, "op %d (%s): lines in the order [%s] load to %d message(s)%s%s%s, in file order to %d", opi, what, os.substr(0, 380).c_str(), r, di < v.size() ? " and " : "", di < v.size() ? (names[di] + "=" + v[di].str() + " instead of " + ref[di].str()).c_str() : "", "", rref); fail("ORDER", b); return false; } return true; };
